@@ -21,7 +21,9 @@ def _job(job):
     drv = _state['driver']
     out = {'id': job['id'], 'text': job['text'], 'meta': job.get('meta'), 'mismatches': [], 'bm': bool(job.get('bm')),
            'n_cases': 0, 'undefined': 0, 'outcomes': {}, 'unsupported': None, 'compile': 'ok',
-           'failpos_diff': 0, 'failpos_cmp': 0, 'flag_mismatch': None}
+           'failpos_diff': 0, 'failpos_cmp': 0, 'flag_mismatch': None,
+           'prep': ({'request': job['prep_request'], 'rx': job['prep_rx'], 'entry': job.get('prep_entry')}
+                    if job.get('prep_request') else None)}
     try:
         with rr.time_limit(20):
             module, rules = rr.compile_grammar(job['text'])
@@ -34,6 +36,21 @@ def _job(job):
     except rr.Unsupported as exc:
         out['unsupported'] = str(exc)
         return out
+    if job.get('prep_request'):
+        # correspondence of the Lean model of preparation with the real translator
+        reply = drv.ask(job['prep_request'])
+        out['prep_checked'] = 1
+        m = None if reply.startswith('error') else __import__('re').match(r'\(ign (-?\d+)\) \(start (\d+)\) \(rules(.*)\)$', reply)
+        if not m:
+            out['unsupported'] = 'driver prepare: ' + reply[:100]
+            return out
+        model_rules = rr.inline_rx('(rules' + m.group(3) + ')', job['prep_rx'])
+        real_rules = rr.inline_rx('(rules ' + ' '.join(bodies) + ')', w.rx) if bodies else '(rules)'
+        if int(m.group(1)) != ign or model_rules != real_rules:
+            out['mismatches'].append({'kind': 'model', 'entry': 'prepare', 'pos': 0, 'input': '',
+                                      'real': ('prepared', f'(ign {ign}) {real_rules}'),
+                                      'gen': ('prepared', f'(ign {m.group(1)}) {model_rules}'), 'peg': ('-',)})
+            out['n_bad'] = out.get('n_bad', 0) + 1
     if w.bytes_mode is None:
         w.bytes_mode = bool(job.get('bm'))
     dyn = None
@@ -57,9 +74,21 @@ def _job(job):
             return out
         items = reply.split(' ; ')
         assert len(items) == len(cases), (len(items), len(cases))
+        spec_items = None
+        if job.get('prep_request') and entry == job.get('prep_entry'):
+            # reference = Lean `prepare` of the *unprepared* grammar, then `peg`
+            bm = 1 if w.bytes_mode else 0
+            cs = ' '.join('(' + str(p_) + ''.join(f' {c}' for c in rr.codes(t_)) + ')' for p_, t_ in cases)
+            decls = job['prep_request'][len('(prepare '):-1]
+            sreply = drv.ask(f'(prepcore (bytes {bm}) (fuel {fuel}) (rx {" ".join(job["prep_rx"])}) '
+                             f'(decls {decls}) (cases {cs}))')
+            if not sreply.startswith('error'):
+                spec_items = sreply.split(' ; ')
         parse = module.parse if entry == 'start' else getattr(module, entry).parse
-        for (pos, text), item in zip(cases, items):
+        for ci, ((pos, text), item) in enumerate(zip(cases, items)):
             g, p = rr.parse_reply_item(item)
+            if spec_items is not None:
+                _, p = rr.parse_reply_item(spec_items[ci])
             real = rr.run_real(parse, text, pos, spans=True)
             out['n_cases'] += 1
             if not spans:
@@ -95,6 +124,20 @@ def _job(job):
                                                   'peg': pv, 'variant': job['dyn']['text'],
                                                   'prefix': prefix, 'base_input': _show(text)})
                     out['n_bad'] = out.get('n_bad', 0) + 1
+            if job.get('lengthen') and pos == 0 and rv[0] in ('S', 'F'):
+                longer = _lengthen(text, job['lengthen'])
+                if longer != text:
+                    lreal = rr.run_real(parse, longer, 0, spans=True)
+                    out['lengthen_cases'] = out.get('lengthen_cases', 0) + 1
+                    lv = (lreal[0], strip(lreal[1])) if lreal[0] == 'S' else (lreal[0],)
+                    bv = (rv[0], rv[1]) if rv[0] == 'S' else (rv[0],)
+                    if lv != bv:
+                        if len(out['mismatches']) < 5:
+                            out['mismatches'].append({'kind': 'spec', 'entry': entry, 'pos': pos,
+                                                      'input': _show(longer), 'real': lreal, 'gen': gv,
+                                                      'peg': ('same value as on', _show(text), rv),
+                                                      'metamorphic': 'lengthened ignorable runs'})
+                        out['n_bad'] = out.get('n_bad', 0) + 1
             if bad_spec or bad_model:
                 if len(out['mismatches']) < 5:
                     out['mismatches'].append({'kind': 'spec' if bad_spec else 'model', 'entry': entry,
@@ -102,6 +145,16 @@ def _job(job):
                                               'peg': pv})
                 out['n_bad'] = out.get('n_bad', 0) + 1
     return out
+
+
+def _lengthen(text, chars):
+    """double every maximal run of ignorable characters"""
+    import re
+    if isinstance(text, bytes):
+        cls = b'[' + re.escape(chars.encode('latin-1')) + b']+'
+        return re.sub(cls, lambda m: m.group(0) * 2, text)
+    cls = '[' + re.escape(chars) + ']+'
+    return re.sub(cls, lambda m: m.group(0) * 2, text)
 
 
 def _show(t):
